@@ -20,6 +20,7 @@ import RbV.Thm.GenSrcTransform
 import RbV.Thm.GenSrcPosTypes
 import RbV.Thm.GenSrcSaisBuckets
 import RbV.Thm.GenSrcSaisCalcPos
+import RbV.Thm.GenSrcSaisCalcPosSafe
 import RbV.Thm.GenSrcSaisLms
 /-!
 # C03 — suffix array = sorted permutation of all suffixes; LCP; shortest unique substrings
@@ -767,10 +768,9 @@ example : Gen.SrcSaisBuckets.init_bucket_end [] [] [] = Rs.Res.panic := by decid
 *translated* `init_bucket_start`, `init_bucket_end`, `is_l_pos`, `is_s_pos` in the place of its callees, on a text SA-IS
 accepts with its L/S typing: placement of the LMS positions from the right (`wrapping_sub`), bucket-end reset, L pass with
 the `p == n || p == 0` skip, S pass with only the `p == 0` skip.  `SafeRun` says that every index the three passes of the
-*model* use is in range (the model totalises such accesses, the code panics).  **Partial**: missing is the proof that every
-run on a `Sais.Valid` text with a list of LMS positions is index-safe (true on every case of the correspondence run; the
-invariants of `Lemmas/SaisPlace/LPass/SPass.lean` do not export the bounds). -/
-theorem calc_pos_source_eq_model_partial (castU : Nat → Option Nat) (pos0 lms : List Nat) (bsz : Rs.VecMap)
+*model* use is in range (the model totalises such accesses, the code panics); it holds for every list of the LMS positions
+(`calc_pos_source_eq_model` below), this form is for arbitrary `lms_pos` contents. -/
+theorem calc_pos_source_eq_model_on_safe_runs (castU : Nat → Option Nat) (pos0 lms : List Nat) (bsz : Rs.VecMap)
     (bst0 be0 t : List Nat) (hv : Sais.Valid t) (hc : ∀ c ∈ t, castU c = some c) (hsz : t.length < 2 ^ 64)
     (hsafe : Thm.GenSrcSaisCalcPos.SafeRun t (Sais.tyOf t) lms) :
     ∃ m, Gen.SrcSaisCalcPos.calc_pos castU (Gen.SrcPosTypes.is_l_pos (Sais.tyOf t)) (Gen.SrcPosTypes.is_s_pos (Sais.tyOf t))
@@ -782,6 +782,33 @@ theorem calc_pos_source_eq_model_partial (castU : Nat → Option Nat) (pos0 lms 
   exact ⟨m, Thm.GenSrcSaisCalcPos.calc_pos_eq_model castU _ _ _ _ _ pos0 lms bsz bst0 be0 t (Sais.tyOf t) m hc
     (fun q hq => Thm.GenSrcPosTypes.is_l_pos_eq_model _ q hq) (fun q hq => Thm.GenSrcPosTypes.is_s_pos_eq_model _ q hq)
     h1 (fun be => Thm.GenSrcSaisBuckets.init_bucket_end_valid be t hv) hsafe⟩
+
+/-- **translated `calc_pos` = the mirror model `Sais.calcPosRun`** on every text SA-IS accepts and every arrangement `lms` of
+its LMS positions in `lms_pos` (each exactly once): the translated code never panics — every run is index-safe
+(`Thm.GenSrcSaisCalcPos.safeRun_of_valid`, from the loop invariants of the three passes) — and returns the model's `pos`,
+`bucket_start`, `bucket_end` -/
+theorem calc_pos_source_eq_model (castU : Nat → Option Nat) (pos0 lms : List Nat) (bsz : Rs.VecMap)
+    (bst0 be0 t : List Nat) (hv : Sais.Valid t) (hc : ∀ c ∈ t, castU c = some c) (hsz : t.length < 2 ^ 64)
+    (hl : Sais.LmsList t lms) :
+    ∃ m, Gen.SrcSaisCalcPos.calc_pos castU (Gen.SrcPosTypes.is_l_pos (Sais.tyOf t)) (Gen.SrcPosTypes.is_s_pos (Sais.tyOf t))
+        (Gen.SrcPosTypes.is_lms_pos (Sais.tyOf t)) (Gen.SrcSaisBuckets.init_bucket_start castU)
+        Gen.SrcSaisBuckets.init_bucket_end pos0 lms bsz bst0 be0 t (Sais.tyOf t) =
+      Rs.Res.ok ((Sais.calcPosRun t (Sais.tyOf t) lms).pos, m, (Sais.calcPosRun t (Sais.tyOf t) lms).bStart,
+        (Sais.calcPosRun t (Sais.tyOf t) lms).bEnd) :=
+  calc_pos_source_eq_model_on_safe_runs castU pos0 lms bsz bst0 be0 t hv hc hsz
+    (Thm.GenSrcSaisCalcPos.safeRun_of_valid t hv hsz lms hl)
+
+/-- **the translated `calc_pos` on suffix-sorted LMS positions returns the sorted suffix permutation** (induced sorting,
+`induced_sort_correct`, for the code itself) -/
+theorem calc_pos_source_sorted (castU : Nat → Option Nat) (pos0 lms : List Nat) (bsz : Rs.VecMap)
+    (bst0 be0 t : List Nat) (hv : Sais.Valid t) (hc : ∀ c ∈ t, castU c = some c) (hsz : t.length < 2 ^ 64)
+    (hl : Sais.LmsSorted t lms) :
+    ∃ pos m bs be, Gen.SrcSaisCalcPos.calc_pos castU (Gen.SrcPosTypes.is_l_pos (Sais.tyOf t))
+        (Gen.SrcPosTypes.is_s_pos (Sais.tyOf t)) (Gen.SrcPosTypes.is_lms_pos (Sais.tyOf t))
+        (Gen.SrcSaisBuckets.init_bucket_start castU) Gen.SrcSaisBuckets.init_bucket_end pos0 lms bsz bst0 be0 t (Sais.tyOf t) =
+      Rs.Res.ok (pos, m, bs, be) ∧ SuffixSorted t pos := by
+  obtain ⟨m, h⟩ := calc_pos_source_eq_model castU pos0 lms bsz bst0 be0 t hv hc hsz hl.1
+  exact ⟨_, m, _, _, h, Sais.induced_sort_suffix t hv lms hl⟩
 
 -- the run on the doc-test text of `suffix_array_int` with its sorted LMS positions is index-safe, and the translated code
 -- evaluated on it returns the suffix array
